@@ -140,6 +140,9 @@ def search_from(prop, base_ops, tier, seed):
     return found
 
 
+KNOWN_SEEN = []
+
+
 def report_failures(prop, tier, seed, results):
     spec = PROPS[prop]
     known = [k for k in vlib.known_findings() if k["property"] == prop]
@@ -169,6 +172,7 @@ def report_failures(prop, tier, seed, results):
             kf = [k for k in known if k["match"] == canon]
             if kf:
                 print(f"KNOWN-FINDING: property={prop} {kf[0]['text']}")
+                KNOWN_SEEN.append(kf[0]["match"])
                 continue
             rr = run_script_ops(ops)
             verdict = ([x for x in rr["mon"] if x.split()[1] == tag] or [m])[0]
@@ -288,6 +292,7 @@ def check(prop, tier, seed, t0):
         "branch_hits": {k: stats.get(k, 0) for k in ("roundtrips", "rt_cycle_or_forward", "loads", "repeated_loads", "stale_loads",
                                                     "ser_panics", "rec_panic_stops", "uuid_cases", "ron_cases")},
         "runs": [r["label"] for r in results],
+        "known_findings_reported": sorted(set(KNOWN_SEEN)),
         "samples": samples,
         "exhaustive": False,
     }
